@@ -1222,7 +1222,15 @@ func (g *Gen) instr(in ssa.Instruction, st *State) {
 		w.assume(fmt.Sprintf("(= %s (store %s %s (store (select %s %s) %s true)))", nd.S, dom.S, m.S, dom.S, m.S, k.S))
 		st.heap[kv] = nv
 		st.heap[kd] = nd
-	case *ssa.Send, *ssa.Select, *ssa.Jump, *ssa.If:
+	case *ssa.Select:
+		// the chosen case: one of the listed ones for a blocking select, or -1 (default) for a non-blocking one
+		idx := g.tupleElem(v, 0, types.Typ[types.Int])
+		lo := "0"
+		if !v.Blocking {
+			lo = "(- 1)"
+		}
+		w.assume(fmt.Sprintf("(and (<= %s %s) (< %s %d))", lo, idx.S, idx.S, len(v.States)))
+	case *ssa.Send, *ssa.Jump, *ssa.If:
 	case *ssa.Return:
 		if g.inlining == 0 {
 			g.checkEnsures(v, st)
@@ -1613,6 +1621,22 @@ func (g *Gen) call0(c *ssa.CallCommon, res ssa.Value, st *State, pos token.Pos) 
 			var ats []Term
 			for i := range args {
 				ats = append(ats, av(i))
+			}
+			// f(a, b, c) on a pure variadic f: the application is over the listed elements (as a specification writes it),
+			// not over the identity of the temporary array the compiler packs them into
+			if ctr.Pure && len(ctr.Requires) == 0 && len(ctr.Ensures) == 0 && callee.Signature.Variadic() && len(args) > 0 {
+				if sli, ok := args[len(args)-1].(*ssa.Slice); ok && sli.Low == nil && sli.High == nil {
+					if al, ok := sli.X.(*ssa.Alloc); ok && g.arrBase != nil && g.arrBase[al].S != "" {
+						at := al.Type().Underlying().(*types.Pointer).Elem().Underlying().(*types.Array)
+						if at.Len() <= 8 {
+							ats = ats[:len(ats)-1]
+							for j := int64(0); j < at.Len(); j++ {
+								a := Addr{kind: "elem", slice: g.arrBase[al], idx: T(fmt.Sprint(j), "Int"), typ: at.Elem()}
+								ats = append(ats, w.loadAddr(a, st, at.Elem()))
+							}
+						}
+					}
+				}
 			}
 			g.callWithContract(callee, ctr, ats, res, st, pos)
 			return
